@@ -73,7 +73,7 @@ pub fn instantiate(
         );
     }
 
-    let config = Config {
+    let mut config = Config {
         start_time: msg.start_time,
         end_time: msg.end_time,
         num_members: msg.members.len() as u32,
@@ -81,7 +81,6 @@ pub fn instantiate(
         member_limit: msg.member_limit,
         whale_cap: msg.whale_cap,
     };
-    CONFIG.save(deps.storage, &config)?;
 
     let admin_config = AdminList {
         admins: map_validate(deps.api, &msg.admins)?,
@@ -121,6 +120,8 @@ pub fn instantiate(
         });
     }
 
+    // only count distinct members, duplicates are skipped
+    config.num_members = 0;
     for member in msg.members.into_iter() {
         let addr = deps.api.addr_validate(&member.address)?;
         if let Some(whale_cap) = config.whale_cap {
@@ -128,8 +129,13 @@ pub fn instantiate(
                 return Err(ContractError::ExceededWhaleCap {});
             }
         }
+        if WHITELIST.has(deps.storage, addr.clone()) {
+            continue;
+        }
         WHITELIST.save(deps.storage, addr, &member.mint_count)?;
+        config.num_members += 1;
     }
+    CONFIG.save(deps.storage, &config)?;
 
     Ok(res
         .add_attribute("action", "instantiate")
